@@ -19,6 +19,7 @@ mod fam_emitter;
 mod fam_files;
 mod fam_options;
 mod fam_preproc;
+mod fam_scope;
 mod fam_snippet;
 mod fam_syntax;
 mod fam_wire;
@@ -91,9 +92,12 @@ pub fn make_family(name: &str) -> Option<Box<dyn Family>> {
         "emitter" => Some(Box::new(fam_emitter::Emitter::default())),
         "emitbin" => Some(Box::new(fam_emitter::EmitBin::default())),
         "syntax" => Some(Box::new(fam_syntax::Syntax { mode: "ast" })),
+        "syntax-find" => Some(Box::new(fam_syntax::Syntax { mode: "find" })),
         "syntax-visit" => Some(Box::new(fam_syntax::Syntax { mode: "visit" })),
         "syntax-spans" => Some(Box::new(fam_syntax::Syntax { mode: "spans" })),
         "snippet" => Some(Box::new(fam_snippet::Snippet::default())),
+        "scope" => Some(Box::new(fam_scope::Scope::default())),
+        "aliaschain" => Some(Box::new(fam_scope::AliasChain::default())),
         "wire" => Some(Box::new(fam_wire::Wire::default())),
         _ => None,
     }
